@@ -35,6 +35,20 @@ OBLIGATIONS = {
     ],
 }
 
+OBLIGATIONS.update({
+    "C09": ["Sx.coherence_all_histories", "Sx.coherence_every_boundary", "Sx.coherence_bracketed_histories", "Sx.c09_crash_equiv",
+            "Sx.inv_reload", "Sx.inv_crash_equiv", "Sx.step_inv", "Sx.start_spec", "Sx.cacheSet_spec", "Sx.regenerate_spec",
+            "Sx.hset_spec", "Sx.hdel_spec", "Sx.hgetdel_spec", "Sx.hlogout_spec", "Sx.hlogin_spec", "Sx.logoutUser_spec",
+            "Sx.refreshUser_spec", "Sx.two_objects_break_coherence"],
+    "C12": ["Sx.compact_spec", "Sx.evictLoop_spec", "Sx.sweep_spec", "Sx.purge_spec", "Sx.cacheGet_spec", "Sx.cacheSet_spec"],
+    "C10": ["Sx.applyMut_sok", "Sx.apiCall_pre", "Sx.finW_inv", "Sx.regenerate_spec"],
+    "C07": ["Sx.destroy_spec", "Sx.cacheDelete_spec", "Sx.hdestroy_spec"],
+    "C08": ["Sx.hlogin_spec", "Sx.hlogout_spec", "Sx.logoutUser_spec", "Sx.refreshUser_spec", "Sx.setUserAll_spec", "Sx.two_objects_break_coherence"],
+    "C01": ["Sx.coherence_all_histories", "Sx.c09_crash_equiv", "Sx.start_spec", "Sx.step_inv"],
+})
+OBLIGATIONS["C16"] = []
+OBLIGATIONS["C17"] = []
+
 for _p in ("C01", "C02", "C03", "C04", "C05", "C06", "C07", "C08", "C09", "C10", "C11", "C12", "C18"):
     OBLIGATIONS.setdefault(_p, [])
 
